@@ -109,6 +109,8 @@ enum FileVia {
 }
 
 struct WorldSpec {
+    /// standard output is a pipe whose reader starts late (slow consumer)
+    stalled_reader: bool,
     /// the working directory has been removed by the time the tool runs
     removed_cwd: bool,
     /// (standard input is a terminal, standard output is a terminal)
@@ -374,7 +376,31 @@ fn gen_world(t: &mut Tape) -> WorldSpec {
         && file_via != FileVia::DevStdinPipe
         && std::path::Path::new("/bin/sh").exists()
         && t.chance(1, 20);
+    // a slow consumer of a large output: the program fills the pipe and has
+    // to wait; nothing may be lost, whether it ends well or in an error
+    let mut stalled_reader = false;
+    if usage == Usage::Normal
+        && fault == FileFault::None
+        && tty == (false, false)
+        && !removed_cwd
+        && file_via != FileVia::DevStdinPipe
+        && sub == Sub::Exec
+        && t.chance(1, 35)
+    {
+        stalled_reader = true;
+        let n = 4000 + t.draw(3000) as usize;
+        let mut big = String::with_capacity(n * 28);
+        for i in 0..n {
+            big.push_str(&format!("Say \"line {} for a slow reader\"\n", i));
+        }
+        if t.chance(1, 2) {
+            big.push_str("Build Missing Thing up\n");
+        }
+        source = big.into_bytes();
+        source_kind = "corpus";
+    }
     WorldSpec {
+        stalled_reader,
         removed_cwd,
         tty,
         file_via,
@@ -790,8 +816,14 @@ impl Property for C20 {
             stdin_kind: w.stdin_kind,
             shared_out_err: false,
             removed_cwd: w.removed_cwd,
+            stalled_stdout_reader_ms: if w.stalled_reader { 800 } else { 0 },
         };
-        let (sep, shared) = if w.tty != (false, false) {
+        let (sep, shared) = if w.stalled_reader {
+            stats.inc("fault.configured.stdout_reader_stalled");
+            stats.inc("fault.fired.stdout_reader_stalled");
+            let a = procworld::run(&spec, &scratch, "stalled");
+            (a.clone(), a)
+        } else if w.tty != (false, false) {
             match procworld::run_pty(&spec, &scratch, "pty", w.tty.0, w.tty.1) {
                 Ok(Some(r)) => {
                     stats.inc(&format!(
@@ -927,6 +959,7 @@ impl Property for C20 {
                 ("file_fault", J::s(format!("{:?}", w.fault))),
                 ("file_reached_via", J::s(format!("{:?}", w.file_via))),
                 ("working_directory_removed", J::Bool(w.removed_cwd)),
+                ("stdout_reader_stalled_800ms", J::Bool(w.stalled_reader)),
                 ("stdin_is_terminal", J::Bool(w.tty.0)),
                 ("stdout_is_terminal", J::Bool(w.tty.1)),
                 ("source_kind", J::s(w.source_kind)),
@@ -964,9 +997,10 @@ impl Property for C20 {
                 rule: rule.to_string(),
                 detail,
                 render: world_json(&sep, &shared),
-                // stderr of a crashing child can contain thread ids: the
-                // identity of the violation is stdout + exit status
-                log_hash: hash_combine(hash_bytes(&sep.stdout), sep.code.unwrap_or(-1) as u64),
+                // what a misbehaving child prints may vary from run to run
+                // (thread ids, how much output was lost): the identity of
+                // the violation is the world and the rule
+                log_hash: hash_combine(key, hash_bytes(rule.as_bytes())),
                 tags: vec![format!("sub:{}", w.sub.name()), format!("fault:{:?}", w.fault)],
             });
             return res;
